@@ -77,6 +77,6 @@ contract(
          f'len(_func_traces) == len(old(_func_traces)) + (0 if {NAME} in old(_func_traces) else 1)'),
         NONEMPTY,
     ],
-    modifies=['global:_func_traces'],
+    modifies=['global:_func_traces', 'ghost:trace'],
     float_mode='U',
 )
